@@ -15,7 +15,7 @@ UTIL = dict(bin="util", driver="util_driver", model_ml="util_model", extract=["U
 
 CONFIG = dict(
 
-    claim="Machine-checked proof, over the executable models of all traversals modelled so far, that the stated fuel - a function of the input length - always suffices, that item counts are bounded by the input and that the WORK is bounded by an explicit function of input and pattern length. Fuel and items: relocation blocks (fuel = length, at most len/8 blocks, at most len/2 words decoded and pairs yielded by the fold; the builder writes at most 12 bytes per rva), the string enumerator (at most length+1 items), sentinel / predicate scans and C strings on both read paths (fuel = slice length / element size + 1; the accepted index r satisfies (r+1)*size <= slice length, the NUL lies among the len bytes), the two backward scans of the Rich header (record count = (end-start-6)/2, all before e_lfanew), the pattern parser on any byte string (fuel length+1), the escape loops of <CStr as Debug>/<CStr as Display> (fuel length+1, at most 4 output bytes per byte; F15 repaired), the TLV parser (an item that parses consumes >= 4 words: at most len/4 items per level, at most len/4+1 results until exhaustion, at most one error), the binary searches of the exception directory and of the export names (floor(log2 n)+2 iterations of the loop on ANY table), Size/12 and Size/28 records of the exception and debug directories, and the resource traversal, tree printer and fsck (at most len/8 entries looked at in total and 32 levels, cycles and shared children included; fsck with a ghost visit counter whose erasure is fsck). Work, by ghost step counters whose erasure is the model function: (1) Exec::exec - the number of atoms executed plus retry-loop iterations over all nested invocations is at most wcost(pat) <= |pat| * prod over the Many atoms of (f_i + 1), f_i = number of cursor positions the skip range can try (min(slice length, 256*Rangext + operand), slice length for an open range): ONE FACTOR PER SKIP-RANGE OPERATOR, inherent in first-match-skipping-as-little-as-possible and stated, not hidden; linear (<= |pat|) without skip ranges (C03_exec_work_bounded, on every view shorter than 4 GiB, together with totality). This needs the Case blocks of the atom list to be properly nested, a decidable static check (cases_nested) proved sound against the interpreter (C03_exec_nesting_check_sound) and proved to hold for EVERY pattern string the parser accepts (C03_exec_parsed_patterns_nested: parse s = Ok p -> cases_nested p = true, an invariant of the parser loop; hence also for every compiled AST of the documented syntax, C03_exec_compiled_patterns_nested), so the bound with one factor per skip range and none per Case holds for every accepted pattern string. For ARBITRARY hand-written atom lists the proved bound has a factor 2 per Case atom and that is attained: 12 hand-written Case(0) atoms take 2^13-1 steps (C03_exec_work_case_chain_refuted). Before the repair of F40 (repo 91e76e1) the same blow-up was reachable from a pattern STRING: the parser reset its brace depth at '|' and ')' and accepted k groups '(%{|?)' with a brace left open inside the alternative, which take 7*2^k-5 steps (C03_exec_work_unbalanced_brace_refuted on parse_orig, the parser as it stood; reproduced on the real Scanner::exec: k=24 0.6 s, k=28 beyond the CPU budget, doubling per group); the repaired parser reports StackError there (C03_unbalanced_brace_rejected). (2) Matches::next - the implementation's own candidate counter `hits` grows by at most the distance range.start advances in one call and over any number of calls of an iteration, i.e. at most range length exec invocations per scan, and (end-start)+1 calls exhaust the iteration. (3) the string enumerator - one call examines exactly the bytes between the old and the new offset, a full iteration examines every byte exactly once (work = len). Restated from the directory modules: the exception binary search terminates on any table, POGO records, fsck on any section bytes including directories that contain themselves, the TLV parser stops after an error and the version-info walk completes with any visitor, forward-only iterators stay exhausted. Tied to /repo by re-running every component correspondence under a per-case CPU budget in isolated worker processes (a case that exceeds it is re-run alone with ten times the budget before it is called a hang), plus a walker that calls every iterator, formatter, serializer, fsck and scanner query on the shipped PE files and field-level corruptions of them with item-count assertions. The step counters themselves are not observed on the implementation (wall-clock budget only).",
+    claim="Machine-checked proof, over the executable models of all traversals modelled so far, that the stated fuel - a function of the input length - always suffices, that item counts are bounded by the input and that the WORK is bounded by an explicit function of input and pattern length. Fuel and items: relocation blocks (fuel = length, at most len/8 blocks, at most len/2 words decoded and pairs yielded by the fold; the builder writes at most 12 bytes per rva), the string enumerator (at most length+1 items), sentinel / predicate scans and C strings on both read paths (fuel = slice length / element size + 1; the accepted index r satisfies (r+1)*size <= slice length, the NUL lies among the len bytes), the two backward scans of the Rich header (record count = (end-start-6)/2, all before e_lfanew), the pattern parser on any byte string (fuel length+1), the escape loops of <CStr as Debug>/<CStr as Display> (fuel length+1, at most 4 output bytes per byte; F15 repaired), the TLV parser (an item that parses consumes >= 4 words: at most len/4 items per level, at most len/4+1 results until exhaustion, at most one error), the binary searches of the exception directory and of the export names (floor(log2 n)+2 iterations of the loop on ANY table), Size/12 and Size/28 records of the exception and debug directories, and the resource traversal, tree printer and fsck (at most len/8 entries looked at in total and 32 levels, cycles and shared children included; fsck with a ghost visit counter whose erasure is fsck). Work, by ghost step counters whose erasure is the model function: (1) Exec::exec - the number of atoms executed plus retry-loop iterations over all nested invocations is at most wcost(pat) <= |pat| * prod over the Many atoms of (f_i + 1), f_i = number of cursor positions the skip range can try (min(slice length, 256*Rangext + operand), slice length for an open range): ONE FACTOR PER SKIP-RANGE OPERATOR, inherent in first-match-skipping-as-little-as-possible and stated, not hidden; linear (<= |pat|) without skip ranges (C03_exec_work_bounded, on every view shorter than 4 GiB, together with totality). This needs the Case blocks of the atom list to be properly nested, a decidable static check (cases_nested) proved sound against the interpreter (C03_exec_nesting_check_sound) and proved to hold for EVERY pattern string the parser accepts (C03_exec_parsed_patterns_nested: parse s = Ok p -> cases_nested p = true, an invariant of the parser loop; hence also for every compiled AST of the documented syntax, C03_exec_compiled_patterns_nested), so the bound with one factor per skip range and none per Case holds for every accepted pattern string. For ARBITRARY hand-written atom lists the proved bound has a factor 2 per Case atom and that is attained: 12 hand-written Case(0) atoms take 2^13-1 steps (C03_exec_work_case_chain_refuted). Before the repair of F40 (repo 91e76e1) the same blow-up was reachable from a pattern STRING: the parser reset its brace depth at '|' and ')' and accepted k groups '(%{|?)' with a brace left open inside the alternative, which take 7*2^k-5 steps (C03_exec_work_unbalanced_brace_refuted on parse_orig, the parser as it stood; reproduced on the real Scanner::exec: k=24 0.6 s, k=28 beyond the CPU budget, doubling per group); the repaired parser reports StackError there (C03_unbalanced_brace_rejected). (2) Matches::next - the implementation's own candidate counter `hits` grows by at most the distance range.start advances in one call and over any number of calls of an iteration, i.e. at most range length exec invocations per scan, and (end-start)+1 calls exhaust the iteration. (3) the string enumerator - one call examines exactly the bytes between the old and the new offset, a full iteration examines every byte exactly once (work = len). Restated from the directory modules: the exception binary search terminates on any table, POGO records, fsck on any section bytes including directories that contain themselves, the TLV parser stops after an error and the version-info walk completes with any visitor, forward-only iterators stay exhausted. Tied to /repo by re-running every component correspondence under a per-case CPU budget in isolated worker processes (a case that exceeds it is re-run alone with ten times the budget before it is called a hang), plus a walker that calls every iterator, formatter, serializer, fsck and scanner query on the shipped PE files and field-level corruptions of them with item-count assertions. The step counters themselves are not observed on the implementation (wall-clock budget only). The formatting layer (component `util`): the decode_utf16 loop and both FmtUtf16 formatters finish within fuel length+1 and write at most 3 bytes per input word (Display) resp. 6 bytes per word plus 3 (Debug), the GUID formatters write exactly 38 / 32 / 32 bytes, Ptr::fmt exactly 2 + 2*size bytes, to_strs yields at most `width` names (C03_util_*).",
     note="Partial by nature: wall-clock time and stack bytes are not modelled; the models bound steps and recursion depth. Trusted: Coq kernel, extraction and glue, process isolation and the alarm()-based budget of the harness.",
     extract=["CStrFmt"],
     components=[
